@@ -188,10 +188,16 @@ def check_index(entries, cols, rng):
 def bounded_index(budget, rng):
     t0 = time.time()
     n = 0
+    seen, samples = set(), []
     while time.time() - t0 < budget or n < 30:
         entries = gen_entries(rng)
         cols = rng.randrange(1, 5)
         n += 1
+        # non-trivial: at least two distinct paths or a repeated entry; distinct: the (entries, columns) pair was not seen before
+        if len(entries) >= 2 and (tuple(entries), cols) not in seen:
+            seen.add((tuple(entries), cols))
+            if len(samples) < 3:
+                samples.append(dict(entries=entries, columns=cols))
         try:
             ok, d, src = check_index(entries, cols, rng)
         except Exception as e:
@@ -199,7 +205,8 @@ def bounded_index(budget, rng):
             return False, n, 'raised %s for entries %r: %s' % (type(e).__name__, entries, traceback.format_exc()[-300:]), dict(text=repr(entries), entries=entries, cols=cols)
         if not ok:
             return False, n, d, dict(text=src, entries=entries, cols=cols)
-    return True, n, ''
+    return True, n, '', None, dict(distinct=len(seen), samples=samples,
+                                   rule='random entry lists (see bound); non-trivial = at least two entries, distinct = (entry list, index-columns) not seen before in this run')
 
 
 def bounded_formats(budget, rng):
@@ -269,7 +276,8 @@ def bounded_split(budget, rng):
                 ok, d = split_ok(list(lens), cols)
                 if not ok:
                     return False, n, d, dict(lens=list(lens), cols=cols, text=repr(lens))
-    return True, n, ''
+    return True, n, '', None, dict(distinct=n, samples=[dict(lens=[1, 2, 3, 5], cols=3)],
+                                   rule='exhaustive enumeration: every (length list, columns) pair is distinct by construction')
 
 
 def check_split(w):
